@@ -197,6 +197,26 @@ Definition sync_coll (cfg : config) (now : Z) (seed : N) (c : coll) (a : sync_ar
         end
   end.
 
+(* A REPORT during which the write of a NEW token file fails (ENOSPC, I/O error): _atomic_write writes into a
+   temporary directory and renames only after a complete write, so no file appears under the token's name; the
+   request fails (5xx) after the lazy history updates of lines 59-63 have happened.  When the request does not get
+   as far as writing a new token file the fault does not strike and the REPORT is an ordinary one. *)
+Definition writes_new_token (now : Z) (seed : N) (c : coll) (a : sync_arg) : bool :=
+  match a with
+  | AMal => false
+  | _ =>
+      let '(_, state) := compute_state now (c_items c) (c_hist c, seed) in
+      let tok := Tok state in
+      negb (match a with ATok t => token_eqb t tok | _ => false end)
+      && match a with ATok t => match tget t (c_toks c) with Some _ => true | None => false end | _ => true end
+      && match tget tok (c_toks c) with None => true | Some _ => false end
+  end.
+
+Definition sync_coll_fail (cfg : config) (now : Z) (seed : N) (c : coll) (a : sync_arg) : coll * N * option sync_res :=
+  if writes_new_token now seed c a then
+    let '((hi, seed'), _) := compute_state now (c_items c) (c_hist c, seed) in (set_hist c hi, seed', None)
+  else let '(x', s', r) := sync_coll cfg now seed c a in (x', s', Some r).
+
 (* ------------------------------------------------------------------ operations *)
 Inductive op :=
 | Put (c : collid) (h : href) (e : cid)                 (* upload.py upload *)
@@ -207,9 +227,10 @@ Inductive op :=
 | DropCache (c : collid) (inroot : bool)                (* external rm -r of <root|cache>/.../.Radicale.cache *)
 | Tick (dt : N)
 | Sync (c : collid) (a : sync_arg)                      (* REPORT sync-collection *)
-| PTok (c : collid).                                    (* PROPFIND D:sync-token = sync()[0] *)
+| PTok (c : collid)                                     (* PROPFIND D:sync-token = sync()[0] *)
+| SyncFail (c : collid) (a : sync_arg).                 (* REPORT whose token-file write fails *)
 
-Inductive result := RUnit | RNoColl | RSync (r : sync_res) | RTok (t : token).
+Inductive result := RUnit | RNoColl | RSync (r : sync_res) | RTok (t : token) | RFail.
 
 Definition build_items (l : list (href * cid)) : list (href * etag) :=
   fold_right (fun p acc => ains (fst p) (EText (snd p)) acc) [] l.
@@ -290,6 +311,12 @@ Definition step (cfg : config) (st : state) (o : op) : state * result :=
       if c_exists x then
         let '(x', seed, r) := sync_coll cfg now (st_seed st) x ANone in
         (set_seed (setc st c x') seed, match r with Delta t _ => RTok t | Refused => RSync Refused end)
+      else (st, RNoColl)
+  | SyncFail c a =>
+      let x := getc st c in
+      if c_exists x then
+        let '(x', seed, r) := sync_coll_fail cfg now (st_seed st) x a in
+        (set_seed (setc st c x') seed, match r with Some r => RSync r | None => RFail end)
       else (st, RNoColl)
   end.
 
